@@ -668,6 +668,10 @@ class EvalMixin(object):
             key = VStr(PyVal.ps(key.e))
         if not isinstance(key, VStr):
             raise OutOfSubset("dict key %r" % (key,), node)
+        if isinstance(cell.ek, tuple):
+            if strict:
+                self.safety(st, "KeyError", z3.Select(cell.keys, key.e), node, "dictionary key may be absent")
+            return VTuple([self.materialise(wrap(k, z3.Select(a, key.e)), st) for k, a in zip(cell.ek[1:], cell.vals)])
         if cell.default:
             if cell.ek != "py":
                 raise OutOfSubset("defaultdict of %s" % cell.ek, node)
